@@ -33,7 +33,7 @@ def cases(draw, ctx):
         # "broadcast wakes all current waiters" and "no signal is lost" must survive the
         # removal of timed-out entries from the waiter queue
         from gen import c19
-        return draw(st.one_of(c19.phased(ctx), c19.racing(ctx))) + "note c05-timed\n"
+        return draw(st.one_of(c19.phased(ctx), c19.racing(ctx), c19.edge(ctx))) + "note c05-timed\n"
     topo, npools, nxs = draw(simple_topology(max_xs=3))
     lines = [draw(sched_line(ctx))] + topo
     ncond = draw(st.sampled_from([1, 1, 2]))
